@@ -56,7 +56,7 @@ Consumer *g_cons = nullptr;
 
 bool ok_model = true, ok_disjoint = true, ok_added_present = true, ok_removed_absent = true, ok_no_trace = true,
      ok_apply = true, ok_values = true, ok_views = true, ok_quiet = true, ok_window = true, ok_struct = true,
-     ok_apply_unpub = true, ok_views_unpub = true;
+     ok_apply_unpub = true, ok_views_unpub = true, ok_values_unpub = true;
 bool g_unpublished_used = false;  // TSD: the history contains a key that is live without a published value
 
 // read a range of int keys into a membership vector over the universe; foreign keys are counted
@@ -296,6 +296,7 @@ template <class DictV> void observe(const DictV &d, bool modified, const ValueVi
     int fm = read_keys(d.modified_keys(), o.mod);
     ok_views &= (f0 == 0) & (fa == 0) & (fr == 0) & (fm == 0) & ((int)d.size() == n);
     bool &apply = g_unpublished_used ? ok_apply_unpub : ok_apply;
+    bool &values = g_unpublished_used ? ok_values_unpub : ok_values;
     for (int u = 0; u < NU; u++) {
         ok_views &= (keys[u] == o.live[u]);
         ok_model &= (o.live[u] == g_model[u].live);
@@ -310,8 +311,8 @@ template <class DictV> void observe(const DictV &d, bool modified, const ValueVi
         apply &= (!o.rem[u]) | !o.live[u];                                  // removed keys are absent afterwards
         apply &= ((!o.rem[u]) | g_prev[u].live) & ((!o.add[u]) | !g_prev[u].live);  // ... were present before / no trace of cancelled pairs
         // modified entries: exactly the live entries whose element was written in this cycle
-        ok_values &= (o.mod[u] == (g_written[u] & g_model[u].live & g_model[u].cvalid));
-        ok_values &= (!o.add[u]) | o.mod[u];  // an added entry comes with its value
+        values &= (o.mod[u] == (g_written[u] & g_model[u].live & g_model[u].cvalid));
+        values &= (!o.add[u]) | o.mod[u];  // an added entry comes with its value
         if (o.live[u] && g_prev[u].live && !o.mod[u] && o.cvalid[u] && g_prev[u].cvalid) ok_values &= (o.val[u] == g_prev[u].val);
         if (!modified) ok_quiet &= (!o.add[u]) & (!o.rem[u]) & (!o.mod[u]);
     }
@@ -665,6 +666,7 @@ extern "C" int harness_main() {
     verif_assert(ok_views, "C05.delta_views_agree");
     // contradicted by the unchanged tree (see notes/C05.md): evaluated only on histories that contain a TSD key
     // which is live but has no published value (created without a write, or element invalidated)
+    verif_assert(ok_values_unpub, "C05.modified_entries_with_unpublished_keys");
     verif_assert(ok_views_unpub, "C05.delta_views_agree_with_unpublished_keys");
     verif_assert(ok_apply_unpub, "C05.value_equals_previous_plus_delta_with_unpublished_keys");
     verif_reach("end");
